@@ -3,3 +3,6 @@
 pub assume_specification<T> [<[T]>::to_vec] (s: &[T]) -> (r: Vec<T>)
     where T: Clone,
     ensures r@ == s@;
+// Vec::extend appends the items the iterator yields (std documentation); only the length fact is used.
+pub assume_specification<T, A: core::alloc::Allocator, I: IntoIterator<Item = T>> [<Vec<T, A> as Extend<T>>::extend::<I>] (v: &mut Vec<T, A>, it: I)
+    ensures final(v)@.len() >= old(v)@.len(), final(v)@.take(old(v)@.len() as int) == old(v)@;
